@@ -27,6 +27,9 @@ type Request struct {
 	Body        string            `json:"body,omitempty"`
 	ContentType string            `json:"content_type,omitempty"`
 	Verdicts    []int             `json:"verdicts,omitempty"` // authorization verdict per callback invocation: 0 approve, 1 refuse 401, 2 refuse 403 with a custom payload
+	// CtxState delivers the request with a context that is already "cancelled" or past its "deadline" (a client
+	// that hung up, an expired timeout middleware); "" = live. Not applied to fiber (app.Test copies the request).
+	CtxState string `json:"ctx_state,omitempty"`
 }
 
 // Response is what one engine answered.
@@ -151,6 +154,8 @@ const mainSrc = `package main
 
 import (
 	"bytes"
+	"context"
+	"time"
 	"encoding/json"
 	"fmt"
 	"io"
@@ -180,6 +185,7 @@ type Request struct {
 	Body        string            ` + "`json:\"body\"`" + `
 	ContentType string            ` + "`json:\"content_type\"`" + `
 	Verdicts    []int             ` + "`json:\"verdicts\"`" + `
+	CtxState    string            ` + "`json:\"ctx_state\"`" + `
 }
 
 type Response struct {
@@ -260,6 +266,16 @@ func one(srv server, rq Request) (resp Response) {
 	}
 	for k, v := range rq.Headers {
 		req.Header.Set(k, v)
+	}
+	switch rq.CtxState {
+	case "cancelled":
+		ctx, cancel := context.WithCancel(req.Context())
+		cancel()
+		req = req.WithContext(ctx)
+	case "deadline":
+		ctx, cancel := context.WithDeadline(req.Context(), time.Unix(1, 0))
+		defer cancel()
+		req = req.WithContext(ctx)
 	}
 	code, b := srv(req)
 	return Response{Status: code, Body: b, Events: rec.Snapshot()}
